@@ -436,6 +436,15 @@ pub fn gen_dict(rng: &mut Rng, cfg: &GenCfg) -> DictSrc {
             lex.push_str(&format!("{cell},{},{},{},h{i}\n", rng.below(nl), rng.below(nr), small_cost(rng, cfg.cost_mag)));
         }
     }
+    // c11 profile: one very cheap word with a unique surface whose feature has white space at its ends / a trailing comma / a
+    // quoted cell with blanks: the stored feature must be the remainder of the row byte for byte
+    if cfg.big_homographs {
+        let feat = *rng.pick(&["f \u{3000}", "g,", "h\t", " i", "j  ", "\"k, \" ", "l,\u{3000}"]);
+        lex.push_str(&format!("xq,0,0,-30000,{feat}\n"));
+        for _ in 0..3 {
+            pool.push("xq".to_string());
+        }
+    }
     let (matrix, right, left, cost) = if kind == 0 {
         (gen_matrix(rng, nr, nl, cfg.cost_mag), String::new(), String::new(), String::new())
     } else {
